@@ -67,18 +67,22 @@ def cmd_run(sid, tier='quick'):
     d = os.path.join(SEEDED, sid)
     meta = json.load(open(os.path.join(d, 'meta.json')))
     prop = meta['property']
-    rc, out = sh('git -C /repo status --short')
-    assert out.strip() == '', '/repo is not clean: ' + out
-    rc, out = sh('git -C /repo apply %s' % os.path.join(d, 'patch.diff'))
+    # SEEDED_REPO=<a worktree of /repo at HEAD>: the patch goes there and the check reads it through VERIF_REPO, so /repo
+    # itself stays as it is (other work may be reading it); without it the patch is applied to /repo and undone
+    repo = os.environ.get('SEEDED_REPO', '/repo')
+    rc, out = sh('git -C %s status --short' % repo)
+    assert out.strip() == '', '%s is not clean: %s' % (repo, out)
+    rc, out = sh('git -C %s apply %s' % (repo, os.path.join(d, 'patch.diff')))
     assert rc == 0, out
     t0 = time.time()
+    env = dict(os.environ, VERIF_REPO=repo) if repo != '/repo' else None
     # the evidence file of the unchanged tree must not be replaced by the record of a run on a seeded change
     ev = os.path.join(HERE, 'evidence', '%s.json' % prop)
     ev_saved = open(ev).read() if os.path.exists(ev) else None
     try:
-        rcc, outc = sh(['./check', prop, '--tier', tier], cwd=HERE, timeout=3000)
+        rcc, outc = sh(['./check', prop, '--tier', tier], cwd=HERE, timeout=3000, env=env)
     finally:
-        sh('git -C /repo checkout -- .')
+        sh('git -C %s checkout -- .' % repo)
         if os.path.exists(ev):
             shutil.copy(ev, os.path.join(d, 'evidence_of_last_run.json'))
         if ev_saved is not None:
@@ -105,7 +109,8 @@ def cmd_run(sid, tier='quick'):
         'when': time.strftime('%Y-%m-%d %H:%M:%S'), 'tier': tier, 'check_rc': rcc, 'wall_s': round(time.time() - t0, 1),
         'lines': [l[:300] for l in lines][:12], 'signatures': sorted(set(sigs)),
         'failing_input_found': with_input, 'broken_obligations': sorted(broken),
-        'ran': 'git -C /repo apply seeded/%s/patch.diff; ./check %s --tier %s; git -C /repo checkout -- .' % (sid, prop, tier)})
+        'ran': 'git -C %s apply seeded/%s/patch.diff; %s./check %s --tier %s; git -C %s checkout -- .'
+               % (repo, sid, ('VERIF_REPO=%s ' % repo) if env else '', prop, tier, repo)})
     meta['detected'] = rcc == 1 and any(l.startswith('VIOLATION') for l in lines)
     with open(os.path.join(d, 'meta.json'), 'w') as f:
         json.dump(meta, f, indent=1)
